@@ -278,7 +278,7 @@ def run(tier, seed):
                       "style rule. A case is distinct by its encoded levels and non-trivial when some query has a type or modifier.")
     ck.assumptions = ["media environments = device type in {screen, print, other} x truth assignment to 3 opaque features",
                       "grass output observed through tools/cssread.py and the prelude parser in tools/props/c17.py"]
-    ck.do_prove()
+    ck.do_prove(cores=("media",))
     if not ck.do_build_runner():
         ck.unproved("correspondence-broken", {"why": "runner does not build against /repo", "error": getattr(ck, "build_error", "")})
         return ck.finish()
